@@ -3,6 +3,7 @@ package main
 import (
 	"fmt"
 	"go/types"
+	"sort"
 	"strings"
 
 	"golang.org/x/tools/go/ssa"
@@ -319,6 +320,18 @@ func (f *frame) applyModifies(ct *Contract, env *SpecEnv) {
 		x := m.X
 		switch x.Op {
 		case "ident":
+			if x.Tok == "cb_log" {
+				f.havocCbLog()
+				continue
+			}
+			if d, ok := env.vars[x.Tok].(*derefOnUse); ok {
+				// a captured variable of a closure
+				if pt, ok := d.ptr.(Term); ok && pt.T.K == KRef {
+					cur := u.load(f.cur, pt)
+					u.store(f.cur, pt, u.declare("mod_"+x.Tok, cur.T))
+					continue
+				}
+			}
 			if g, ok := u.eng.ghosts[x.Tok]; ok {
 				u.heap(f.cur, "G."+x.Tok, u.tc.smt(g))
 				u.havocHeap(f.cur, "G."+x.Tok)
@@ -413,6 +426,37 @@ func (f *frame) applyModifies(ct *Contract, env *SpecEnv) {
 			env.bad("modifies: unsupported location %s", x)
 		}
 	}
+}
+
+// havocCbLog: the callback log may grow; existing entries are kept.
+func (f *frame) havocCbLog() {
+	u := f.u
+	oldN := u.ghost(f.cur, "cb_n", sInt)
+	for _, h := range cbHeaps(u) {
+		old := u.heap(f.cur, h, u.eng.heapSorts[h])
+		nw := u.havocHeap(f.cur, h)
+		u.assume(Term{fmt.Sprintf("(forall ((q_c Int)) (! (=> (< q_c %s) (= (select %s q_c) (select %s q_c))) :pattern ((select %s q_c))))", oldN.S, nw.S, old.S, nw.S), sBool})
+	}
+	nn := u.havocHeap(f.cur, "G.cb_n")
+	u.assume(le(oldN, Term{nn.S, sInt}))
+}
+
+func cbHeaps(u *Unit) []string {
+	// the log columns used by callbacks of shape func([]byte, int32) and the function identity
+	u.eng.heapSorts["G.cb_fn"] = "(Array Int Int)"
+	u.eng.heapSorts["G.cb_a0_arr"] = "(Array Int (Array Int (_ BitVec 8)))"
+	u.eng.heapSorts["G.cb_a0_off"] = "(Array Int Int)"
+	u.eng.heapSorts["G.cb_a0_len"] = "(Array Int Int)"
+	u.eng.heapSorts["G.cb_a1_"+sanitize("(_ BitVec 32)")] = "(Array Int (_ BitVec 32))"
+	u.eng.heapSorts["G.cb_n"] = "Int"
+	var out []string
+	for h := range u.eng.heapSorts {
+		if strings.HasPrefix(h, "G.cb_") && h != "G.cb_n" {
+			out = append(out, h)
+		}
+	}
+	sort.Strings(out)
+	return out
 }
 
 func (f *frame) useLemmas(ct *Contract) {
@@ -725,6 +769,11 @@ func (f *frame) loopHeader(li *loopInfo) {
 			u.assume(le(Term{old.S, sInt}, Term{nw.S, sInt}))
 			continue
 		}
+		if strings.HasPrefix(h, "G.cb_") {
+			oldN := u.ghost(pre, "cb_n", sInt)
+			u.assume(Term{fmt.Sprintf("(forall ((q_c Int)) (! (=> (< q_c %s) (= (select %s q_c) (select %s q_c))) :pattern ((select %s q_c))))", oldN.S, nw.S, old.S, nw.S), sBool})
+			continue
+		}
 		if fr != nil && fr.ok && (strings.HasPrefix(h, "E.") || strings.HasPrefix(h, "H.") || strings.HasPrefix(h, "B.")) {
 			// automatic frame: only the statically known targets (and fresh objects) change
 			var excl []string
@@ -960,6 +1009,13 @@ func (u *Unit) scanCallMods(c *ssa.CallCommon, add func(string, ssa.Value, bool)
 			x := m.X
 			switch x.Op {
 			case "ident":
+				if x.Tok == "cb_log" {
+					for _, h := range cbHeaps(u) {
+						add(h, nil, false)
+					}
+					add("G.cb_n", nil, false)
+					continue
+				}
 				add("G."+x.Tok, nil, false)
 			case "field":
 				if _, ok := u.eng.ghostFields[x.Tok]; ok {
